@@ -35,6 +35,7 @@ type HandlerCfg struct {
 	CompressMin int
 	ReadMax     int
 	Recover     bool // install WithRecover
+	FailCodec   bool // install codecs that fail to marshal marked messages
 	RecoverPos  int  // position among NInterceptors others
 	NIntercept  int
 }
@@ -94,10 +95,11 @@ type CallPlan struct {
 	RespTrailer http.Header
 	LateHeader  http.Header // set after the first Send (documented no-op)
 
-	HProg      []HOp
-	HErr       *ErrPlan // returned at the end of HProg (nil: success)
-	HPanic     *PanicPlan
-	RecoverErr *ErrPlan // what the WithRecover function returns
+	HProg         []HOp
+	HErr          *ErrPlan // returned at the end of HProg (nil: success)
+	HPanic        *PanicPlan
+	ReturnSendErr bool     // the handler returns the error of a failed Send (as handlers do)
+	RecoverErr    *ErrPlan // what the WithRecover function returns
 
 	CProg    []COp // sender (or only) task
 	CProgRcv []COp // receiver task when Split
@@ -109,11 +111,13 @@ type CallPlan struct {
 	YieldOn      [simhttp.NumPoints]bool
 	SlowOn       [simhttp.NumPoints]bool
 
-	c07     *c07Info
-	c05mode int
-	bad     string              // C08: what is wrong with this call ("" = a valid call)
-	byz     *byzInfo            // C06: what the byzantine peer did
-	bin     map[string][][]byte // original bytes of generated -Bin values
+	c07           *c07Info
+	c05mode       int
+	marshalFails  bool
+	marshalFailAt int
+	bad           string              // C08: what is wrong with this call ("" = a valid call)
+	byz           *byzInfo            // C06: what the byzantine peer did
+	bin           map[string][][]byte // original bytes of generated -Bin values
 
 	TimeoutString string // C10: header string under test and its class
 	TimeoutClass  string
